@@ -123,7 +123,7 @@ func c08DecodeOne(res *vlib.Result, text string) {
 		if derr == nil {
 			e, _ := ad.Lookup("A")
 			res.Violate("C08/decode/accepts-what-parser-rejects/"+vc, "value text %q: full parser rejects it (%v) but the decoder produced %s", text, perr, e.String())
-			res.Outcome("VIOLATION-accept")
+			res.Outcome("finding-accept")
 			return
 		}
 		res.Outcome("both-reject")
@@ -132,7 +132,7 @@ func c08DecodeOne(res *vlib.Result, text string) {
 	res.Nontrivial++
 	if derr != nil {
 		res.Violate("C08/decode/rejects-what-parser-accepts/"+vc, "value text %q: full parser accepts it but the decoder failed: %v", text, derr)
-		res.Outcome("VIOLATION-reject")
+		res.Outcome("finding-reject")
 		return
 	}
 	got, ok := ad.Lookup("A")
@@ -150,7 +150,7 @@ func c08DecodeOne(res *vlib.Result, text string) {
 		return
 	}
 	res.Violate("C08/decode/differs-from-parser/"+vc, "value text %q: full parser gives %s (= %s), decoder produced %s (= %s)", text, ref.String(), rv.String(), got.String(), gv.String())
-	res.Outcome("VIOLATION-differs")
+	res.Outcome("finding-differs")
 }
 
 // ---- encode side ----
